@@ -84,6 +84,7 @@ type FuncVerifier struct {
 	u                                            *Universe
 	obls                                         []*Obligation
 	frames                                       []*frame
+	autoFrames                                   int // > 0 while executing an auto-inlined helper that contains a range loop
 	entry                                        *State
 	initHeaps                                    map[string]Term
 	allocs                                       map[string]Term // per heap: allocated set at entry
@@ -1883,6 +1884,11 @@ func (fv *FuncVerifier) execRange(s *ast.RangeStmt, st *State) *State {
 func (fv *FuncVerifier) execRangeLabel(s *ast.RangeStmt, st *State, label string) *State {
 	ls, _, ord := fv.inlineLoopSpec(s)
 	xt := fv.typeOf(s.X)
+	if fv.autoFrames > 0 && ls == nil {
+		if _, isSl := xt.Underlying().(*types.Slice); !isSl {
+			reject("call to %s without contract (range over %s at %s)", funcKey(fv.frame().fd.fn), xt, fv.pos(s.Pos()))
+		}
+	}
 	if _, isFn := xt.Underlying().(*types.Signature); isFn {
 		return fv.execRangeFunc(s, st, label, ls, ord)
 	}
@@ -1940,6 +1946,9 @@ func (fv *FuncVerifier) execRangeLabel(s *ast.RangeStmt, st *State, label string
 		// constant trip count (e.g. a packed variadic argument list): unroll
 		if cnt, ok := constLen(coll, isInt); ok && cnt <= 8 && ls == nil {
 			return fv.unrollRange(s, st, coll, cnt, kObj, vObj, label)
+		}
+		if fv.autoFrames > 0 && ls == nil {
+			reject("call to %s without contract (its range loop at %s does not unroll here)", funcKey(fv.frame().fd.fn), fv.pos(s.Pos()))
 		}
 		iv := types.NewVar(s.Pos(), nil, "ri", types.Typ[types.Int])
 		st.vars[iv] = intT(0)
